@@ -1177,6 +1177,16 @@ mut("C18", "cmd-stored-after-bangbang", "R18-2|main|typed-line", "sh.cmd is assi
                 sh.cmd = line.clone();
 """))
 
+mut("C19", "num-accepts-bare-dot", "R19-5|grammar|num-parses-as-f64", "the grammar accepts `.` / `-.` as a number",
+    ("src/calculator/grammar.pest", """num = @{ int ~ ("." ~ ASCII_DIGIT*)? ~ (^"e" ~ int)? }""",
+     """num = @{ (int ~ ("." ~ ASCII_DIGIT*)? | ("+" | "-")? ~ "." ~ ASCII_DIGIT*) ~ (^"e" ~ int)? }"""))
+ref("num-accepts-leading-dot-fraction", ["C19", "C05"], "the grammar also accepts `.5` (digits required after the dot)",
+    ("src/calculator/grammar.pest", """num = @{ int ~ ("." ~ ASCII_DIGIT*)? ~ (^"e" ~ int)? }""",
+     """num = @{ (int ~ ("." ~ ASCII_DIGIT*)? | ("+" | "-")? ~ "." ~ ASCII_DIGIT+) ~ (^"e" ~ int)? }"""))
+mut("C06", "pids-swap-remove", "R06-6|shell::Shell::remove_pid_from_job|order|swap_remove",
+    "a finished pid is removed with swap_remove",
+    (S, "x.pids.remove(i_pid);", "x.pids.swap_remove(i_pid);"))
+
 # ------------------------------------------------------------------ more refactors
 ref("history-params-vec", ["C18"], "bind the INSERT parameters through a params! style slice",
     (H, "    match conn.execute(&sql, [line.trim(), info.as_str()]) {",
